@@ -394,7 +394,7 @@ pub fn run(run: &Run) {
     run.assume("QUIC close reasons stay below 1000 bytes (longer ones are truncated by the transport by design)");
     prop_search(
         run,
-        Search { check: "termination-value", cases: run.tier.pick(3000, 30000), workers: 8, max_shrink_iters: 60 },
+        Search { check: "termination-value", cases: run.tier.pick(3000, 100000), workers: 8, max_shrink_iters: 60 },
         case_strategy,
         |c| judge(|| exec(c), false, "C04:hang"),
         |c| serde_json::to_value(c).unwrap(),
